@@ -75,7 +75,7 @@ func (env *SpecEnv) toTerm(v Value, x ast.Expr) *Term {
 	switch t := v.(type) {
 	case *Term:
 		if len(env.state().subst) > 0 {
-			return substitute(t, env.state().subst)
+			return env.state().sub(t)
 		}
 		return t
 	case *RefVal:
@@ -367,8 +367,8 @@ func (env *SpecEnv) equal(l, r Value, n ast.Expr) *Term {
 		if !ok {
 			env.fail("comparison of term with %T in %s", r, exprString(n))
 		}
-		a = substitute(a, env.state().subst)
-		b = substitute(b, env.state().subst)
+		a = env.state().sub(a)
+		b = env.state().sub(b)
 		return mkEq(a, b)
 	case *PtrVal:
 		switch b := r.(type) {
@@ -550,7 +550,7 @@ func (env *SpecEnv) elemsOf(v Value, x ast.Expr) []*Term {
 	n := s.length.Val.Int64()
 	out := make([]*Term, n)
 	for i := int64(0); i < n; i++ {
-		out[i] = substitute(env.e.sliceElem(env.state(), s, mkInt64(i)), env.state().subst)
+		out[i] = env.state().sub(env.e.sliceElem(env.state(), s, mkInt64(i)))
 	}
 	return out
 }
@@ -591,7 +591,7 @@ func (env *SpecEnv) call(n *ast.CallExpr) Value {
 		return v
 	case "implies":
 		need(2)
-		g := substitute(env.boolTerm(args[0]), env.state().subst)
+		g := env.state().sub(env.boolTerm(args[0]))
 		if knownFalse(env.state(), g) {
 			return tTrue
 		}
@@ -897,7 +897,7 @@ func (env *SpecEnv) pointCoords(x ast.Expr) (*Term, *Term, *Term) {
 func (env *SpecEnv) bip66(x ast.Expr) *Term {
 	s := env.sliceOf(env.eval(x), x)
 	n := s.length
-	at := func(i *Term) *Term { return substitute(env.e.sliceElem(env.state(), s, i), env.state().subst) }
+	at := func(i *Term) *Term { return env.state().sub(env.e.sliceElem(env.state(), s, i)) }
 	c := func(v int64) *Term { return mkInt64(v) }
 	lenR := at(c(3))
 	// everything that indexes is guarded by the preceding length facts (short-circuit conjunction)
@@ -928,7 +928,7 @@ func init() {
 	// abs(p): abstract point represented by a *Point (or affinePoint with z = 1)
 	specFuncs["abs"] = func(env *SpecEnv, n *ast.CallExpr) Value {
 		x, y, z := env.pointCoords(n.Args[0])
-		return substitute(liftApp("pt", SPt, x, y, z), env.state().subst)
+		return env.state().sub(liftApp("pt", SPt, x, y, z))
 	}
 	// onc(p): the coordinates of p satisfy the projective curve equation
 	specFuncs["onc"] = func(env *SpecEnv, n *ast.CallExpr) Value {
@@ -991,14 +991,14 @@ func (env *SpecEnv) valOf(v Value, x ast.Expr) Value {
 	}
 	var limbs [4]*Term
 	for i := 0; i < 4; i++ {
-		limbs[i] = substitute(env.e.loadPath(env.state(), r.reg, extend(r.path, mi, i), types.Typ[types.Uint64]).(*Term), env.state().subst)
+		limbs[i] = env.state().sub(env.e.loadPath(env.state(), r.reg, extend(r.path, mi, i), types.Typ[types.Uint64]).(*Term))
 	}
 	ev := mkInt64(0)
 	for i := 3; i >= 0; i-- {
 		ev = mkAdd(mkScale(ev, bigW), limbs[i])
 	}
 	t := mkFromMont(s, ev)
-	return substitute(t, env.state().subst)
+	return env.state().sub(t)
 }
 
 func (env *SpecEnv) leafTerms(v Value, x ast.Expr) []*Term {
@@ -1007,7 +1007,7 @@ func (env *SpecEnv) leafTerms(v Value, x ast.Expr) []*Term {
 	rec = func(v Value) {
 		switch t := v.(type) {
 		case *Term:
-			out = append(out, substitute(t, env.state().subst))
+			out = append(out, env.state().sub(t))
 		case *AggVal:
 			for _, el := range t.elems {
 				rec(el)
